@@ -14,6 +14,7 @@
 -/
 import Hpfeeds.Lemmas.BlkSession
 import Hpfeeds.Lemmas.PollQueue
+import Hpfeeds.Lemmas.BlkSessionWrites
 namespace Hpfeeds.C20
 open Hpfeeds Extracted
 
@@ -75,6 +76,16 @@ theorem drains (cfg : Cfg) (es : List Ev) (ns : List Nat) (hns : ∀ n ∈ ns, 1
   have := hw.bytes
   rw [hfin.1, hfin.2.1, hfin.2.2] at this
   simpa using this
+
+/-- The observable form.  Over ANY event sequence, the bytes the model's OUTPUT shows accepted by the socket
+    of the current connection — what the correspondence check compares, round by round, with what the real
+    scripted socket accepted — are exactly `wire`; so `wire_exact` / `wire_prefix` / `drains` speak about the
+    bytes arriving at the peer end of the socket.  (The frames put into the outbox, the ghost `enq`, are
+    compared with the implementation's true queue order after every event as length + hash.) -/
+theorem wire_is_observable (cfg : Cfg) (es : List Ev) :
+    bytesOn (run cfg es).1.gen (run cfg es).2 = (run cfg es).1.wire ∧
+    bytesOn (run cfg es).1.gen (run cfg es).2 <+: (run cfg es).1.enq.flatten :=
+  ⟨(gb_run cfg es).cur, by rw [(gb_run cfg es).cur]; exact wire_prefix cfg es⟩
 
 /-- one round: what send() accepted leaves the buffer from the front and is appended to the wire; EAGAIN /
     EWOULDBLOCK changes nothing -/
